@@ -107,17 +107,27 @@ def run(ctx):
             continue
         job, tr, t = h
         linear = float(job["cfg"].get("phase", 50)) == 50 and not (int(job["cfg"].get("recipe", 4)) & 0x30)
-        if not linear:
-            ctx.count("plans_nonlinear_phase(theorem not applicable)"); continue
-        ctx.count("plans_never_early_hypotheses_checked")
-        if t is None or int(t["lat"]) < 1 or t.get("early") != "1":
-            if [k for k in cr.classify_known(tr.plan, job["cfg"]) if k in known]:
-                continue
-            ctx.violation("hypothesis of never_early fails on a plan of the real planner (PlanLatOK / PlanEarlyOK / StageWF): %s (%s %s); "
-                          "the early-bound oracle found no violating call in this job" % (t, cr.create_line(job["cfg"]), job["env"]),
-                          {"cfg": job["cfg"], "env": job["env"], "plan": tr.plan, "time": t}, no_input=True)
-        elif t.get("post") == "1":
-            ctx.count("plans_with_post_context>=half_output_period(never_early_round applies)")
+        f1 = [k for k in cr.classify_known(tr.plan, job["cfg"]) if k in known]
+        if linear:
+            # centred filters: the theorem's hypotheses in their strong form (never_early, never_early_round)
+            ctx.count("plans_never_early_hypotheses_checked")
+            if t is None or int(t["lat"]) < 1 or t.get("early") != "1":
+                if f1:
+                    continue
+                ctx.violation("hypothesis of never_early fails on a plan of the real planner (PlanLatOK / PlanEarlyOK / StageWF): %s (%s %s); "
+                              "the early-bound oracle found no violating call in this job" % (t, cr.create_line(job["cfg"]), job["env"]),
+                              {"cfg": job["cfg"], "env": job["env"], "plan": tr.plan, "time": t}, no_input=True)
+            elif t.get("post") == "1":
+                ctx.count("plans_with_post_context>=half_output_period(never_early_round applies)")
+        else:
+            # any phase response: never_early_any_phase needs StageWF, the dft shape clauses and 0 <= b + margin per stage
+            ctx.count("plans_nonlinear_phase_checked(never_early_any_phase)")
+            if t is None or t.get("earlyg") != "1":
+                if f1:
+                    ctx.count("plans_nonlinear_phase_with_F1_signature"); continue
+                ctx.violation("hypothesis of never_early_any_phase fails on a plan of the real planner (PlanEarlyGen / StageWF): %s (%s %s); "
+                              "the early-bound oracle found no violating call in this job" % (t, cr.create_line(job["cfg"]), job["env"]),
+                              {"cfg": job["cfg"], "env": job["env"], "plan": tr.plan, "time": t}, no_input=True)
     ctx.cov["rule"] = ("random (configuration, N, call schedule) jobs: rates/recipes/flags/phases/runtime specs/engines from crcommon.gen_config, "
                        "call sizes around every internal block length of the exported plan; each job runs on the real library and its "
                        "operations are replayed through the Lean count model (every idone/odone, occupancy, clock word, remM, input_size "
